@@ -75,7 +75,9 @@ def ellipsis_soup(rng):
     ellipsis, a variable at the wrong depth, doubled ellipses) - used on forms whose runs have different lengths, one
     item, or none"""
     pats = ["(m (a ...) (b ...))", "(m (a b ...) ...)", "(m a ...)", "(m (a ...) b ...)", "(m #(a ...) (b c ...))",
-            "(m (a ...) (b ...) (c ...))", "(m a (b ...) ...)", "(m (a b) ...)"]
+            "(m (a ...) (b ...) (c ...))", "(m a (b ...) ...)", "(m (a b) ...)",
+            # an ellipsis with NOTHING before it in its list (accepted at definition time; a use must be a reported error)
+            "(m ...)", "(m (... a) b)", "(m #(... a))", "(... m)", "(m a (...))", "(m (... ...) a)"]
     def tmpl(d):
         k = rng.random()
         if d <= 0 or k < 0.35:
@@ -92,7 +94,8 @@ def ellipsis_soup(rng):
     fixed = ["(list (cons a b) ...)", "'((a b ...) ...)", "(list a ... b ...)", "(list (list a b c) ...)", "'((a ...) ...)",
              "(list (+ a b) ... c ...)", "'(a ... ...)", "(quote #(a ... b ...))"]
     uses = ["(m (1 2 3) (4 5))", "(m (1) ())", "(m () ())", "(m (1 2) 3 4 5)", "(m (1 2 3) (4))", "(m #(1 2) (3 4 5))",
-            "(m (1 2 3) (4 5))", "(m (t1 b1 c1) (t2 b2))", "(m 1 2 3)", "(m (1 2) (3 4) (5))", "(m 1 (2 3) (4))", "(m)", "(m (1 2) (3 4))"]
+            "(m (1 2 3) (4 5))", "(m (t1 b1 c1) (t2 b2))", "(m 1 2 3)", "(m (1 2) (3 4) (5))", "(m 1 (2 3) (4))", "(m)", "(m (1 2) (3 4))",
+            "(m 2)", "(m (1 2) 3)", "(m #(1 2))", "(m 1 ())"]
     t = rng.choice(fixed) if rng.random() < 0.5 else tmpl(3)
     text = "(define-syntax m (syntax-rules () (%s %s)))" % (rng.choice(pats), t)
     return text + " " + " ".join(rng.choice(uses) for _ in range(rng.randrange(1, 4)))
